@@ -387,6 +387,7 @@ func init() {
 				bfs("lsm", 3, 50, withOps(big, "Sp1a Sq Dp1a F C0 Yp1 Yp Yp1,q Yp1a,qq Yp1a,p1 V R"), seeds...),
 				sched("c29race", 2, 4, 40, prm("cases", 4)),
 				en("crash08", 16, 60, prm("oracle", "c29", "len", 3, "alphabet", "T2 WB F C DP DA")),
+				en("crash08", 16, 40, prm("oracle", "c29", "len", 4, "alphabet", "T2 F DA DP")), // overwrite after a flush, then the drop
 			}
 		} else {
 			p.Stages = []Stage{
